@@ -1001,6 +1001,11 @@ impl Device {
                     return "skip".into();
                 }
                 let Ok(mut secret) = Secret::try_from(src.clone()) else { return "skip".into() };
+                // some attachments hang off a secret that is not a file secret
+                let note_root = opn == "xcreate" && ju64(s, "attach") % 3 != 0 && val % 3 == 0;
+                if note_root {
+                    secret = Secret::Note { text: marker(val, "note.with.attachment").into(), user_data: Default::default() };
+                }
                 // attachments: further external files as user-data fields of the
                 // same secret (several blobs in one secret directory)
                 let n_attach = ju64(s, "attach") % 3;
@@ -1018,9 +1023,12 @@ impl Device {
                     b[15] = (val & 0xff) as u8;
                     b[6] = 0x40 | (b[6] & 0x0f);
                     b[8] = 0x80 | (b[8] & 0x3f);
-                    if let Secret::File { user_data, .. } = &mut secret {
-                        user_data.push(SecretRow::new(uuid::Uuid::from_bytes(b), ameta, asecret));
-                        attach_bodies.push(abody);
+                    match &mut secret {
+                        Secret::File { user_data, .. } | Secret::Note { user_data, .. } => {
+                            user_data.push(SecretRow::new(uuid::Uuid::from_bytes(b), ameta, asecret));
+                            attach_bodies.push(abody);
+                        }
+                        _ => {}
                     }
                 }
                 let meta = make_meta(&secret, ju64(s, "label"), ju64(s, "tags"), jbool(s, "fav"), marker_labels, val);
